@@ -347,3 +347,49 @@ def solver_names(ctx):
 def SLIST(ctx):
     """The term `self.<node list field>` inside Solver methods."""
     return ("attr", ("v", "self"), solver_names(ctx)["field"])
+
+
+def solver_field_consts(ctx):
+    """{field: constant} for Solver fields that the constructor sets to a compile-time constant, given the one construction site
+    in StochasticGame.solve (explicit arguments or defaults) - e.g. an optional `max_iterations=None` that nobody passes.
+    Fields assigned anywhere else are left out."""
+    if "solver_field_consts" in ctx.cache:
+        return ctx.cache["solver_field_consts"]
+    out = {}
+    try:
+        init, solve = solver_entry(ctx)
+        sinit = ctx.prog.resolve_method("Solver", "__init__")
+        ctor = [c for c in walk_no_nested_defs(solve.node) if isinstance(c, ast.Call) and isinstance(c.func, ast.Name) and c.func.id == "Solver"]
+        if sinit is not None and len(ctor) == 1:
+            c = ctor[0]
+            ps = [p for p in sinit.params if p != "self"]
+            env = {}
+            bound = dict(zip(ps, c.args))
+            bound.update({k.arg: k.value for k in c.keywords if k.arg})
+            for p_ in ps + sinit.kwonly:
+                node = bound.get(p_, sinit.defaults.get(p_))
+                if node is None:
+                    continue
+                ok, v = ctx.prog.try_const(node, solve.mod if p_ in bound else sinit.mod)
+                if ok:
+                    env[p_] = v
+            written_elsewhere = set()
+            for g in ctx.prog.all_funcs(("tad.py",)):
+                if g is sinit:
+                    continue
+                for n in walk_no_nested_defs(g.node):
+                    if isinstance(n, ast.Attribute) and isinstance(n.ctx, ast.Store):
+                        written_elsewhere.add(n.attr)
+            for st in walk_no_nested_defs(sinit.node):
+                if isinstance(st, ast.Assign) and len(st.targets) == 1 and isinstance(st.targets[0], ast.Attribute) and attr_path(st.targets[0]) \
+                        and attr_path(st.targets[0]).startswith("self."):
+                    fld = st.targets[0].attr
+                    if fld in written_elsewhere:
+                        continue
+                    ok, v = ctx.prog.try_const(st.value, sinit.mod, env)
+                    if ok and isinstance(v, (int, float, str, bool, type(None))):
+                        out[fld] = v
+    except AnalysisError:
+        pass
+    ctx.cache["solver_field_consts"] = out
+    return out
